@@ -439,6 +439,8 @@ func (s *Sched) waitQuiescent(buf *[]byte) {
 	}
 }
 
+var snapBuf = make([]byte, 256<<10) // reused across executions (Run is never concurrent)
+
 // Run executes main as controlled thread 0 under the scheduler, drawing every scheduling
 // decision from x, and returns when main finished, a deadlock was found or a cap was hit.
 func Run(x *mc.Exec, cfg Config, mainFn func()) (res Result) {
@@ -461,9 +463,10 @@ func Run(x *mc.Exec, cfg Config, mainFn func()) (res Result) {
 	if !current.CompareAndSwap(nil, s) {
 		panic("vsched: nested or concurrent Run (use mc.Options{Workers:1})")
 	}
-	buf := make([]byte, 256<<10)
+	buf := snapBuf
 	s.main = GoNamed("main", false, mainFn)
 	defer func() {
+		snapBuf = buf
 		s.teardown(&buf)
 		res.Leaked = s.res.Leaked
 		current.Store(nil)
